@@ -1,9 +1,68 @@
-(* C12 - placeholder; theorems are added as proofs land *)
-From Coq Require Import ZArith List.
-From NutsV Require Import model.Protocol.
+(* C12 - Pause stops chains within a bounded number of draws; resume loses nothing. *)
+From Coq Require Import ZArith List Bool Arith.
+From NutsV Require Import model.Protocol proofs.Protocol_facts.
 Import ListNotations.
-Example C12_model_runs :
-  replay_log 1 1 [(2, 0, 0, 0); (2, 1, 0, 0); (2, 4, 0, 0); (2, 5, 0, 0); (2, 7, 0, 0); (2, 8, 0, 1)]%Z
-  = [[1; 1; 8; 1]]%Z.
+
+(* from the moment pause() returns until the controller handles the next command, chain j records
+   at most pot c0 <= (number of Resume messages still queued for it) + 1 further draws *)
+Theorem C12_pause_bound :
+  forall (n total : nat) (s s0 : st) (evs : list ev) (s' : st) (j : nat) (c0 c' : chain),
+    reach n total s -> step s (EvUser (ERet KPause 1%Z)) = Some s0 ->
+    run s0 evs = Some s' -> no_cmd evs ->
+    nth_error (s_chains s0) j = Some c0 -> nth_error (s_chains s') j = Some c' ->
+    c_since_pause c' <= pot c0 /\ length (c_rec c') <= length (c_rec c0) + pot c0 /\
+    pot c0 <= nres (c_mail c0) + 1 /\ s_paused s' = true.
+Proof. exact I6_pause_bound. Qed.
+Print Assumptions C12_pause_bound.
+
+(* with no other command outstanding (mailbox = [Pause]): at most one further draw *)
+Theorem C12_pause_at_most_one_more_draw :
+  forall (n total : nat) (s s0 : st) (evs : list ev) (s' : st) (j : nat) (c0 c' : chain),
+    reach n total s -> step s (EvUser (ERet KPause 1%Z)) = Some s0 ->
+    run s0 evs = Some s' -> no_cmd evs ->
+    nth_error (s_chains s0) j = Some c0 -> nth_error (s_chains s') j = Some c' ->
+    c_mail c0 = [MPause] -> c_since_pause c' <= 1.
+Proof. exact I6_pause_mailbox_only_pause. Qed.
+Print Assumptions C12_pause_at_most_one_more_draw.
+
+(* a blocked chain records nothing until a Resume is sent to it, whatever else happens *)
+Theorem C12_blocked_records_nothing :
+  forall (s : st) (evs : list ev) (s' : st) (j : nat) (c : chain),
+    nth_error (s_chains s) j = Some c -> c_pc c = PBlocked -> ~ In MResume (c_mail c) ->
+    run s evs = Some s' -> ~ In (EvCtl (ESend MResume j true)) evs ->
+    exists c', nth_error (s_chains s') j = Some c' /\ c_rec c' = c_rec c /\ c_draw c' = c_draw c.
+Proof. exact I6_blocked_records_nothing. Qed.
+Print Assumptions C12_blocked_records_nothing.
+
+(* a chain that has not started drawing and finds Pause first in its mailbox does not draw *)
+Theorem C12_queued_chain_stays :
+  (forall (s : st) (i : nat) (e : cev) (s' : st) (c : chain),
+     nth_error (s_chains s) i = Some c -> c_pc c = PQueued -> chain_step s i e = Some s' ->
+     e = EStarted \/ e = EResult false) /\
+  (forall (s : st) (i : nat) (e : cev) (s' : st) (c : chain) (rest : list msg),
+     nth_error (s_chains s) i = Some c -> c_pc c = PStarted -> c_mail c = MPause :: rest ->
+     chain_step s i e = Some s' ->
+     (e = ETryRecv (RMsg MPause) \/ e = EResult false) /\
+     exists c', nth_error (s_chains s') i = Some c' /\ c_rec c' = c_rec c /\
+                (c_pc c' = PTop (RMsg MPause) \/ c_pc c' = PDone false)) /\
+  (forall (s : st) (i : nat) (e : cev) (s' : st) (c : chain),
+     nth_error (s_chains s) i = Some c -> c_pc c = PTop (RMsg MPause) -> chain_step s i e = Some s' ->
+     (e = EBlock /\ c_draw c < s_total s \/ e = EResult true /\ s_total s <= c_draw c) /\
+     exists c', nth_error (s_chains s') i = Some c' /\ c_rec c' = c_rec c /\
+                (c_pc c' = PBlocked \/ c_pc c' = PDone true)).
+Proof. split; [exact I7_queued_forced | split; [exact I7_started_pause_forced | exact I7_top_pause_forced]]. Qed.
+Print Assumptions C12_queued_chain_stays.
+
+(* resume loses nothing: in every reachable state (any number of pauses and resumes) the recorded
+   draws are 0,1,2,... without gap, duplicate or reordering *)
+Theorem C12_resume_lossless :
+  forall (n total : nat) (s : st) (c : chain),
+    reach n total s -> In c (s_chains s) -> c_rec c = seq 0 (c_draw c) /\ c_draw c <= total.
+Proof. exact I1_records. Qed.
+Print Assumptions C12_resume_lossless.
+
+Example C12_nonvacuous :
+  replay_log 1 3 [(0,0,0,1); (2,0,0,0); (1,0,0,1); (1,1,0,1); (2,1,0,1); (0,1,1,1); (2,2,0,0)]%Z
+  = [[0; 0; 3; 0]]%Z.
 Proof. vm_compute. reflexivity. Qed.
-Print Assumptions C12_model_runs.
+Print Assumptions C12_nonvacuous.
